@@ -147,7 +147,6 @@ _struct_dict = {
 }
 
 
-@lru_cache(maxsize=65536)
 def write_struct(representation_code: RepresentationCode, value: Any) -> bytes:
     """Convert a value to bytes according to the RP66 V1 spec.
 
@@ -158,6 +157,17 @@ def write_struct(representation_code: RepresentationCode, value: Any) -> bytes:
     Returns:
         Value converted to bytes depending on representation_code and RP66 V1 spec.
     """
+
+    if representation_code is RepresentationCode.OBNAME or representation_code is RepresentationCode.OBJREF:
+        # references to (mutable) EFLR items must not be cached: the item can be renamed or get another origin
+        return _struct_dict[representation_code](value)
+
+    return _write_struct_cached(representation_code, value)
+
+
+@lru_cache(maxsize=65536, typed=True)
+def _write_struct_cached(representation_code: RepresentationCode, value: Any) -> bytes:
+    """Cached part of write_struct. The cache is typed: 1, 1.0 and True are different values once written as text."""
 
     func = _struct_dict.get(representation_code, None)  # get a converter corresponding to the repr code
     if func:
